@@ -176,7 +176,12 @@ def public_ops(ctx, rng):
                     dev.ieco = rng.random() < 0.5
                     dev.breeze_away = rng.random() < 0.5
                 else:
-                    asyncio.run(getattr(dev, op)())
+                    try:
+                        asyncio.run(getattr(dev, op)())
+                    except Exception as e:  # noqa  the operation could not emit one of its own (in-domain) commands
+                        ctx.violate("public_ops", {"ops": ops, "operation": op}, {"raised": type(e).__name__ + ": " + str(e)[:80]},
+                                    "every command of a public operation is emitted", "a public operation failed to emit a command")
+                        break
             for name, before, frame in captured:
                 oracle(ctx, "public_ops", kinds[name], before, hx(frame), {"ops": ops, "command": name})
                 ctx.case("public_ops", key=hx(frame), sample={"ops": ops, "command": name, "frame": hx(frame)})
